@@ -293,6 +293,6 @@ def drv_witness(ctx, k, rng):
 
 DRIVERS = [
     ("witness", 1, 1, drv_witness),
-    ("sweep", 240, 12000, drv_sweep),
+    ("sweep", 240, 6000, drv_sweep),
     ("module", 60, 2000, drv_module),
 ]
